@@ -20,3 +20,4 @@ def run(rep: Report, repo: Repo, tier: str) -> None:
     misc_rules.rule_runtime_pin(rep, repo, "C05-R6")
     # CMake command names are case-insensitive: FUNCTION() and function() are the same invocation
     misc_rules.rule_case_folding(rep, repo, "C05-R7")
+    misc_rules.rule_no_partial_ops(rep, repo, "C05-R8")
